@@ -20,13 +20,12 @@ ASSUMPTIONS = [
     "the model raises misaligned exactly where the code leaves a half-read body on an open connection",
     "fewer than 2^32 requests per connection (int32 correlation ids wrap; the wrap is in the model)",
     "the legacy Conn's broker answers each request at most once (duplicate answers are outside C06's fault list; the harness still "
-    "generates them and reports the resulting livelock separately); the Transport's broker may repeat or delay answers arbitrarily",
+    "generates them: safety is still checked, the resulting livelock is recorded as an observation in the notes); the Transport's "
+    "broker may repeat or delay answers arbitrarily",
     "after a time-out in the middle of a response body fewer than 8 unread bytes remain buffered (peekRead peeks at most 8, ReadFull consumes), "
     "so a closed connection yields no further header; parse errors on well-formed frames do not occur (C04/C17)",
 ]
 
-KEY_AV = "C06-apiversions-no-close"
-KEY_LIVELOCK = "C06-conn-stale-frame-livelock"
 
 
 def model_line(c):
@@ -45,12 +44,8 @@ def expected_model(c):
     op, go = c["op"], c["go"]
     if op in ("wr", "mux", "tr"):
         return go
-    if op == "avopen":
-        return " ".join(go.split(" ")[:2])          # averr=.. closed=..
-    if op == "avstale":
-        f = dict(x.split("=") for x in go.split(" ") if "=" in x)
-        own = "1" if f.get("got") == f.get("honest") else "0"
-        return f'averr={f.get("averr")} closed={f.get("closed")} next={f.get("next")} own={own}'
+    if op in ("avopen", "avstale"):
+        return " ".join(go.split(" ")[:3])          # averr=.. closed=.. next=..
     return "skip"
 
 
@@ -86,7 +81,7 @@ def correspondence(ctx):
             cases.append(c)
     res = L.run_model(model, "\n".join(model_line(c) for c in cases) + "\n", timeout=1500)
     failures = []
-    av_seen, livelocks, norun = [], [], 0
+    livelocks, norun = [], 0
     for c in cases:
         c["line"] = f'{c["id"]} {c["op"]} {c["args"]}'
         m = res.get(c["id"])
@@ -98,20 +93,27 @@ def correspondence(ctx):
                                  what="a call returned a value carrying another call's tag (foreign response delivered)",
                                  detail=c["line"][:600] + " -> " + c["go"][:300], input=inp))
             continue
-        if c["op"] == "avstale":
+        if c["op"] in ("avopen", "avstale"):
+            # regression of the ApiVersions defect fixed by /repo 9708961: a time-out inside the
+            # response body must close the connection, and the next call must not be handed bytes
             f = dict(x.split("=") for x in c["go"].split(" ") if "=" in x)
-            if f.get("next") == "1" and f.get("got") != f.get("honest"):
-                av_seen.append(inp)
-        if c["op"] == "avopen":
-            f = dict(x.split("=") for x in c["go"].split(" ") if "=" in x)
-            if f.get("averr") == "1" and f.get("closed") == "0":
-                av_seen.append(inp)
+            if f.get("averr") == "1" and f.get("closed") != "1":
+                failures.append(dict(layer="property", key=None,
+                                     what="(*Conn).ApiVersions gave up on a read error and left the connection open "
+                                          "(C06_conn_abandon_closes does not hold for the code)",
+                                     detail=c["line"][:400] + " -> " + c["go"][:200], input=inp))
+                continue
+            if f.get("next") == "1" and "got" in f and f.get("got") != f.get("honest"):
+                failures.append(dict(layer="property", key=None,
+                                     what="bytes left over from an abandoned ApiVersions exchange were delivered to the next call as its response",
+                                     detail=c["line"][:400] + " -> " + c["go"][:200], input=inp))
+                continue
         if c["go"].startswith("HANG"):
             if "dup" in c["feats"].split(","):
-                livelocks.append(inp)
+                livelocks.append(inp)      # observation only, see notes (liveness is outside C06)
             else:
                 failures.append(dict(layer="property", key=None,
-                                     what="watchdog: the scenario did not terminate (no duplicate answers involved)",
+                                     what="watchdog: the scenario did not terminate although the broker sent no duplicate answer",
                                      detail=c["line"][:600], input=inp))
                 continue
             if c["op"] != "mux":
@@ -127,20 +129,14 @@ def correspondence(ctx):
                                           else f"{c['op']}: model and implementation disagree",
                                      detail=json.dumps(dict(case=c["line"][:800], go=c["go"][:300], model=str(m)[:300], want=want[:300])),
                                      input=None))
-    if av_seen:
-        stale = [x for x in av_seen if "avstale" in x["case"]]
-        failures.append(dict(layer="property", key=KEY_AV,
-                             what="(*Conn).ApiVersions returns a read error on the response body without closing the connection "
-                                  "(theorem C06_conn_abandon_closes_apiversions_refuted); the left-over bytes are then delivered to the "
-                                  "next call as its response (C06_conn_stale_delivery_refuted, op avstale: ReadOffset returns an offset "
-                                  "no answer to that request carried)",
-                             detail=json.dumps((stale or av_seen)[:3]), input=(stale or av_seen)[0]))
+    notes = []
     if livelocks:
-        failures.append(dict(layer="property", key=KEY_LIVELOCK,
-                             what="a stale/duplicate frame at the head of the stream with two or more waiters makes every waiter spin "
-                                  "in (*Conn).waitResponse forever (Peek is served from the buffer, the deadline is never consulted); "
-                                  "duplicate answers are outside C06's fault list — reported as a robustness finding",
-                             detail=json.dumps(livelocks[:3]), input=livelocks[0]))
+        notes.append("OBSERVATION (liveness, outside C06's statement; not a failure): when the broker repeats an answer, the stale "
+                     "frame at the head of the stream makes two or more waiters spin in (*Conn).waitResponse forever (Peek(8) is served "
+                     "from the bufio buffer, so the connection deadline is never consulted; one waiter alone gets io.ErrNoProgress and "
+                     "the connection stays open).  The model reproduces the livelock state for every such small history. %d scenarios "
+                     "this run, e.g. `%s` -> HANG; recipe: build/bin/c06 -seed %d -n %d -big %d and look for HANG lines (feature dup)."
+                     % (len(livelocks), livelocks[0]["case"][:200], ctx.seed, n, big))
     ev, dn, hist = L.coverage_counts(cases, trivial_feats=("", "kind=ro,threads=1", "kind=rp,threads=1", "kind=lo,threads=1"))
     per_op = {}
     for c in cases:
@@ -154,13 +150,13 @@ def correspondence(ctx):
                      "deadline, ctx cancel / deadline) checked by linearisation search against the extracted model (projection: order of requests "
                      "at the broker, order of complete answer frames per connection, outcome class per call); muxbig / trbig = 2-16 goroutines x "
                      "3-10 payload-tagged calls, predicate only (every returned value carries the caller's tag, every failure is an error); "
-                     "avopen / avstale = replay of the ApiVersions witness.  non-trivial = anything but a single undisturbed call",
+                     "avopen / avstale = regression of the former ApiVersions defect (time-out inside the body must close; no left-over bytes delivered).  non-trivial = anything but a single undisturbed call",
                 samples=[c["line"][:260] + " | " + c["go"][:100] for c in cases[:2] + cases[len(cases)//3:len(cases)//3+2]
                          + cases[2*len(cases)//3:2*len(cases)//3+2] + cases[-2:]],
                 extra=dict(per_op=per_op, tagged_calls_ok=ok_calls, tagged_calls_err=err_calls,
                            model_disagreements=norun, harness_wall_s=round(dt, 1),
                            linearisation="full search (all interleavings of model labels, memoised) for every mux/tr history"),
-                failures=failures)
+                notes=notes, failures=failures)
 
 
 def search(ctx, violations):
@@ -190,7 +186,7 @@ def replay(ctx, payload):
         out, _ = run_harness(ctx, 0, 0, av=3, seed=payload.get("seed", 1))
         print("re-run on the current tree (harness/cmd/c06 -n 0 -big 0 -av 3):")
         print(out)
-        bad = [l for l in out.splitlines() if " closed=0 " in l]
+        bad = [l for l in out.splitlines() if " closed=0 " in l or " next=1 " in l]
         return 1 if bad else 0
     model = L.ocaml_build("c06")
     c = L.parse_cases(inp["case"] + " | " + (inp.get("go") or "") + " | " + (inp.get("feats") or ""))[0]
